@@ -30,6 +30,23 @@ preemption-bounded subset (bound = nesting depth).  Reads of B inside a write tr
 If B nevertheless hits ``database is locked`` (a lingering read cursor of A), the schedule is reported as
 ``blocked`` and is never counted as a violation; the busy timeout is lowered so that this costs < 0.5 s.
 
+A detail worth knowing: the non-transactional `SqliteWorkflowStore.store_stage` raises ConcurrencyError after a
+0-row UPDATE without rolling back, so that worker keeps its implicit write transaction (and SQLite's RESERVED lock)
+until its next commit — all those points are `in_transaction` and therefore skipped, as they must be.
+
+Typical use (see harness/props/c04.py, c11.py)
+----------------------------------------------
+    env = fresh_env(core.scratch_dir()); build_fanin(env, 2, "DISCRIMINATOR"); env.start()
+    env.drain(hold=lambda code: code.startswith("CS(u"))          # bring the engine to the interesting state
+    snap = snapshot(env)
+    a, b = env.find("CS(u1)")[0], env.find("CS(u2)")[0]            # queue row ids by canonical code
+    for c in enumerate_points(env, snap, lambda e: e.deliver_op("A", a)):
+        if c.legal:
+            out = run_schedule(env, snap, lambda e: e.deliver_op("A", a, {c.idx: e.deliver_op("B", b)}))
+            reason, steps = env.drain()                            # then look at env.audit(), env.qledger(), LEDGER, env.state_line()
+    # depth 2: e.deliver_op("A", a, {k: e.deliver_op("B", b, {j: e.deliver_op("C", c)})}); any callable: e.fn_op("B", "sweep", fn)
+    # an index >= the number of calls means "right after the operation" (sequential baseline)
+
 Pieces
 ------
 * ``install_shim()`` / ``Sched``: the proxy connection and the scheduler (arming, call log, canonical trace).
